@@ -113,6 +113,7 @@ class Judge(object):
         self.units = 0
         self.sigs = set()
         self.fired = {}
+        self.abort = False
 
     def V(self, clause, msg, **facts):
         if len(self.viol) < 5:
@@ -125,6 +126,7 @@ class Judge(object):
     def clause1(self, res, text, where):
         kind, val = res
         if kind == 'timeout':
+            self.abort = True      # one demonstrated hang per chunk is enough; do not burn the budget on its neighbours
             self.V('C11.6-terminates', 'parsing did not finish within %.0f CPU seconds %s' % (PARSE_CPU_CAP_S, where), what='timeout')
             return False
         if kind == 'foreign':
@@ -152,6 +154,8 @@ def run(scn):
             J.V('C11.4-unchanged', 'the intact well-formed file %s is rejected by the %s parser' % (f.name, d), what='intact-rejected')
             ref = []
         for pos in range(scn['lo'], min(scn['hi'], len(f.text))):
+            if J.abort:
+                break
             text = f.text[:pos]
             res = attempt(d, text)
             J.units += 1
@@ -179,7 +183,7 @@ def run(scn):
         f = fl[scn['file']]
         for pos in range(scn['lo'], min(scn['hi'], len(f.text))):
             for ch in ALPHABET:
-                if f.text[pos] == ch:
+                if f.text[pos] == ch or J.abort:
                     continue
                 text = f.text[:pos] + ch + f.text[pos + 1:]
                 res = attempt(d, text)
